@@ -37,6 +37,7 @@ func TestVerifReplay(t *testing.T) {
 			outs = append(outs, verif.Outcome{Harness: j.Harness, TapeError: "unknown harness (not registered)"})
 			continue
 		}
+		resetGlobals()
 		outs = append(outs, verif.Run(j.Harness, h, j.Tape, j.Thorough))
 	}
 	ob, _ := json.Marshal(outs)
